@@ -345,6 +345,25 @@ class Check:
                                   "register features) no longer has the shape the translator accepts (%s): gen/AccessSrc.v "
                                   "cannot be regenerated" % e)
                 return False
+        if pid == "C20":
+            import translate_memprot
+            try:
+                translate_memprot.regenerate(REPO)
+            except (translate_memprot.ShapeError, OSError) as e:
+                self.proof_broken("tools/translate_memprot.py: AccessRight / MemoryProtection / the provided methods of trait "
+                                  "Register in impl/src/memory.rs no longer have the shape the translator accepts (%s): "
+                                  "gen/MemProtSrc.v cannot be regenerated" % e)
+                return False
+        if pid == "C04":
+            import translate_cachepath
+            try:
+                translate_cachepath.regenerate(REPO)
+            except (translate_cachepath.ShapeError, OSError) as e:
+                self.proof_broken("tools/translate_cachepath.py: the register caching path (RegisterBase::with_cache_or_read / "
+                                  "read_and_cache / write_and_cache, IPort for PortNode, the ValueCtxt forwarders, CacheStore / "
+                                  "CacheStoreBuilder of DefaultCacheStore and CacheSink, store_invalidators) no longer has the "
+                                  "shape the translator accepts (%s): gen/CachePathSrc.v cannot be regenerated" % e)
+                return False
         if pid == "C02":
             import translate_bitmask
             try:
@@ -353,6 +372,15 @@ class Check:
                 self.proof_broken("tools/translate_bitmask.py: `impl BitMask` of genapi/src/masked_int_reg.rs no longer has "
                                   "the shape the translator accepts (%s): gen/BitMaskSrc.v cannot be regenerated" % e)
                 return False
+        if pid == "C05":
+            import translate_formulaops
+            try:
+                translate_formulaops.regenerate(REPO)
+            except (translate_formulaops.ShapeError, OSError) as e:
+                self.proof_broken("tools/translate_formulaops.py: the evaluator of genapi/src/formula.rs (EvaluationResult "
+                                  "coercions, wrapping_pow, Expr::eval / eval_binop / eval_unop) no longer has the shape the "
+                                  "translator accepts (%s): gen/FormulaOpsSrc.v cannot be regenerated" % e)
+                return False
         if pid in ("C13", "C14"):
             import translate_decoders
             try:
@@ -360,6 +388,15 @@ class Check:
             except (translate_decoders.ShapeError, OSError) as e:
                 self.proof_broken("tools/translate_decoders.py: the bit-level decoders of cameleon/src/u3v/register_map.rs no "
                                   "longer have the shape the translator accepts (%s): gen/DecodersSrc.v cannot be regenerated" % e)
+                return False
+        if pid == "C14":
+            import translate_xmlfetch
+            try:
+                translate_xmlfetch.regenerate(REPO)
+            except (translate_xmlfetch.ShapeError, OSError) as e:
+                self.proof_broken("tools/translate_xmlfetch.py: genapi / verify_xml of cameleon/src/u3v/control_handle.rs or the "
+                                  "ManifestTable / ManifestEntry accessors of register_map.rs no longer have the shape the "
+                                  "translator accepts (%s): gen/XmlFetchSrc.v cannot be regenerated" % e)
                 return False
         if pid == "C17":
             import translate_names
@@ -371,11 +408,14 @@ class Check:
                 return False
         tr = {"C01": "tools/translate_codec.py (macro arms and match arms of int_from_slice / bytes_from_int / float_from_slice / bytes_from_float, genapi/src/utils.rs -> gen/CodecSrc.v) and lib/RustBytes.v (from_xx_bytes / to_xx_bytes / copy_from_slice)",
               "C18": "tools/translate_access.py (NodeElementBase / RegisterBase is_readable, is_writable and the three controls, genapi/src/node_base.rs + register_base.rs -> gen/AccessSrc.v over model/AccessOps.v)",
+              "C05": "tools/translate_formulaops.py (own parser / type checker / Gallina emitter for the evaluator of genapi/src/formula.rs: the From impls and coercions of EvaluationResult, wrapping_pow with its loop as a fuelled Fixpoint, every arm of Expr::eval_binop and Expr::eval_unop with the local macro_rules! expanded from their definitions, Expr::eval -> gen/FormulaOpsSrc.v), model/FormulaOps.v (the meaning of i64::overflowing_* / wrapping_* / signum, of the `as` casts and of the f64 operations as calls into the oracle record) and lib/RustInt.v",
+              "C20": "tools/translate_memprot.py + tools/minirust.py (typed mini-Rust translator of enum AccessRight with every method of impl AccessRight, struct MemoryProtection with every method of impl MemoryProtection, and the provided methods write / read / range of trait Register, impl/src/memory.rs -> gen/MemProtSrc.v; Vec indexing, `&mut v[i]` places, slicing, copy_from_slice, vec![x; n], fold / for_each / for over an item list interpreted by model/MemProtOps.v) and lib/RustInt.v (debug-build semantics of the integer operations)",
               "C02": "tools/translate_bitmask.py (typed mini-Rust translator of `impl BitMask`, genapi/src/masked_int_reg.rs -> gen/BitMaskSrc.v) and lib/RustInt.v (debug-build semantics of the integer operations)",
+              "C04": "tools/translate_cachepath.py (statement-level translator of RegisterBase::with_cache_or_read / read_and_cache / write_and_cache, IPort::read / write of PortNode, the ValueCtxt cache forwarders, the traits CacheStore / CacheStoreBuilder with their implementations for DefaultCacheStore and CacheSink and RegisterBase::store_invalidators, genapi/src/{register_base,port,lib,store,builder}.rs + parser/register_base.rs -> gen/CachePathSrc.v; HashMap / Vec operations, the state of a path, length(..) / address(..) / expect_iport_kind / the device interpreted by model/CacheOps.v; shape of struct RegisterBase / PortNode / ValueCtxt and of enum CachingMode asserted)",
               "C08": "tools/translate_proto.py (protocol tables -> gen/ProtoTables.v) and tools/translate_ackparse.py (typed mini-Rust translator of AckPacket::parse / AckCcd::parse / Status::parse / ScdKind::parse, the five ParseScd views behind scd_as, EventPacket::parse / EventCcd::parse / EventScd::parse with its loop and read_and_seek, device/src/u3v/protocol/{ack,event}.rs -> gen/AckParseSrc.v; cursor reads, seeks and slicing interpreted by model/CurOps.v; `while` loops become fuelled Fixpoints; shape of read_bytes_le in impl/src/bytes_io.rs and of u3v::Error asserted) and lib/RustInt.v (debug-build semantics of the integer operations)", "C09": "tools/translate_proto.py (protocol tables -> gen/ProtoTables.v) and tools/translate_serialize.py (typed mini-Rust translator of the structs, the trait CommandScd and its four implementations, the constructors, the length functions and every serializer of device/src/u3v/protocol/cmd.rs -> gen/SerializeSrc.v; serializers become lists of write operations interpreted by model/SerOps.v; shape of write_bytes_le in impl/src/bytes_io.rs asserted) and lib/RustInt.v (debug-build semantics of the integer operations)",
               "C11": "tools/translate_proto.py (protocol tables -> gen/ProtoTables.v) and tools/translate_streamparse.py (typed mini-Rust translator of Leader::parse / Trailer::parse, the specific leaders and trailers, the TryFrom<u16> tables and the getters of device/src/u3v/protocol/stream.rs, of every method of PayloadBuilder in cameleon/src/u3v/stream_handle.rs and of Payload::image_info / image / payload / into_vec in cameleon/src/payload.rs -> gen/StreamParseSrc.v; cursor reads, slicing and the chunk-walk loop are interpreted by model/RdOps.v; shape of read_bytes_le in impl/src/bytes_io.rs, of `#[from] std::io::Error` and of the `use` lines asserted) and lib/RustInt.v (debug-build semantics of the integer operations)",
               "C13": "tools/translate_decoders.py + tools/minirust.py (typed mini-Rust translator of the bit-level decoders, the bit macros, register_address and ParseBytes for BusSpeed of cameleon/src/u3v/register_map.rs -> gen/DecodersSrc.v) and lib/RustInt.v (debug-build semantics of the integer operations)",
-              "C14": "tools/translate_decoders.py + tools/minirust.py (typed mini-Rust translator of genicam_file_version / file_type / compression_type of cameleon/src/u3v/register_map.rs -> gen/DecodersSrc.v) and lib/RustInt.v (debug-build semantics of the integer operations)",
+              "C14": "tools/translate_decoders.py + tools/minirust.py (typed mini-Rust translator of genicam_file_version / file_type / compression_type of cameleon/src/u3v/register_map.rs -> gen/DecodersSrc.v) and lib/RustInt.v (debug-build semantics of the integer operations); tools/translate_xmlfetch.py (statement-level translator of DeviceControl::genapi, ControlHandle::verify_xml, ManifestTable::entries and the ManifestEntry accessors -> gen/XmlFetchSrc.v over the operation vocabulary model/XfOps.v)",
               "C10": "tools/translate_chunks.py (symbolic executor of ReadMemChunks::next / WriteMemChunks::next etc. -> gen/ReadChunks.v) and lib/RustInt.v",
               "C15": "tools/translate_code.py (translator of enable_streaming + Sirm accessors -> gen/EnableStreaming.v) and lib/RustInt.v",
               "C17": "tools/translate_names.py (element names and literal tables -> gen/ElemNames.v)"}.get(pid)
